@@ -63,6 +63,27 @@ func (P *Program) runConcrete(harness string, bounds map[string]int, seed int64)
 
 var selfvalSeq int
 
+// runConcreteVec executes the harness concretely on a given vector.
+func (P *Program) runConcreteVec(harness string, bounds map[string]int, vec []ReplayVal) (res concResult) {
+	i := P.newInterp(nil)
+	i.bounds = bounds
+	i.concVec = vec
+	fn := P.Sod.Func(harness)
+	res.Status = "ok"
+	defer func() {
+		res.Asserts, res.Obs = i.concAsserts, i.concObs
+		if r := recover(); r != nil {
+			res.Status, res.Msg = "ended", fmt.Sprint(r)
+			if tp, ok := r.(targetPanic); ok {
+				res.Msg = toString(tp.v)
+			}
+		}
+	}()
+	call(i, nil, token.NoPos, P.Sod.Func("init"), nil)
+	call(i, nil, token.NoPos, fn, nil)
+	return
+}
+
 type selfvalCase struct {
 	Harness string
 	File    string
